@@ -94,16 +94,21 @@ Theorem C15_right_triangle_empty_iff_complete : forall u lags t,
 Proof. exact right_triangle_empty. Qed.
 Print Assumptions C15_right_triangle_empty_iff_complete.
 
-(* incremental input: same coordinates / metadata / (empty) values as the cumulative result, all cells
-   incremental, and in every new row the chain continues from the observed right edge:
-   prev(first) = evaluation date of the edge cell, prev(next) = evaluation date of the previous one *)
+(* incremental input: same coordinates / (empty) values as the cumulative result, all cells incremental,
+   every new cell carries the metadata object of its row's FIRST cell (the group key of to_cumulative:
+   Python-equal to the edge cell's, possibly spelled differently), and in every new row the chain
+   continues from the observed right edge: prev(first) = evaluation date of the edge cell,
+   prev(next) = evaluation date of the previous one *)
 Theorem C15_right_triangle_incremental : forall u lags s,
-  map (fun c => (ps c, pe c, ev c, cmeta c, cvals c)) (rt_slice true u lags s) =
-  map (fun c => (ps c, pe c, ev c, cmeta c, cvals c)) (rt_slice false u lags s) /\
-  forall e, let out := finish_row true e (rt_row u (slice_lags u lags s) e) in
-    Forall (fun c => ckind c = KInc) out /\ chained_b (ev e) out = true.
+  map (fun c => (ps c, pe c, ev c, cvals c)) (rt_slice true u lags s) =
+  map (fun c => (ps c, pe c, ev c, cvals c)) (rt_slice false u lags s) /\
+  (forall e, let out := finish_row true (row_head s e) e (rt_row u (slice_lags u lags s) e) in
+    Forall (fun c => ckind c = KInc /\ cmeta c = cmeta (row_head s e)) out /\ chained_b (ev e) out = true) /\
+  (forall e, In e s -> In (row_head s e) s /\ period (row_head s e) = period e) /\
+  (forall m t e, s = slice_cells m t -> In e s -> meta_pyeq (cmeta (row_head s e)) (cmeta e) = true).
 Proof.
-  intros u lags s. split; [apply rt_slice_inc_coords|]. intros e. apply right_triangle_inc_rows.
+  intros u lags s. split; [apply rt_slice_inc_coords|]. split; [intros e; apply right_triangle_inc_rows|].
+  split; [apply row_head_spec|]. intros m t e -> He. now apply row_head_same_slice.
 Qed.
 Print Assumptions C15_right_triangle_incremental.
 
